@@ -5,6 +5,9 @@ plain walk of parent links.  Core-only.
 -/
 namespace BV.C17.Spec
 
+/-- the tree given by a parent list: node 0 is the root, node `i+1` has parent `ps[i]` -/
+def parentOf (ps : List Nat) (n : Nat) : Option Nat := if n = 0 then none else ps[n - 1]?
+
 /-- the parent walk `[n, parent n, parent (parent n), …]` (at most `fuel` links) -/
 def chainUp (P : Nat → Option Nat) : Nat → Nat → List Nat
   | 0, n => [n]
